@@ -332,9 +332,9 @@ class Builtins:
             if h is not None:
                 return Str((h.derive(f"[{I.show(idx)}]"),))
             return Str((Hole(tag, "char"),))
-        if isinstance(base, Unknown) and isinstance(idx, IntV) and \
+        if isinstance(base, Unknown) and (isinstance(idx, IntV) or (isinstance(idx, Str) and idx.is_concrete())) and \
                 ("group0" in base.meta or "template_groups" in base.meta or "concrete_groups" in base.meta):
-            g = I.match_group(base, idx.v, node, fr)
+            g = I.match_group(base, idx.v if isinstance(idx, IntV) else idx.text(), node, fr)
             if g is not None:
                 return g
         if isinstance(base, Unknown):
@@ -906,6 +906,25 @@ class Builtins:
             return Str((Hole(I.run.new_tag("str.format"), "formatted", meta={"fmt": s, "args": args}),))
         if name == "encode":
             return Unknown(I.run.new_tag("bytes"))
+        if name in ("partition", "rpartition") and len(args) == 1 and not kwargs and isinstance(args[0], Str) and \
+                args[0].is_concrete() and tokrx.is_tok_template(s):
+            # on a token template: exact whenever the separator cannot hide inside a token
+            try:
+                pieces = list(tokrx.t_split(s, args[0].text()))
+                sep = args[0]
+                if len(pieces) == 1:
+                    return TupleV([pieces[0], Str.lit(""), Str.lit("")] if name == "partition" else [Str.lit(""), Str.lit(""), pieces[0]])
+
+                def glue(ps):
+                    out = ps[0]
+                    for x in ps[1:]:
+                        out = out + sep + x
+                    return out
+                if name == "partition":
+                    return TupleV([pieces[0], sep, glue(pieces[1:])])
+                return TupleV([glue(pieces[:-1]), sep, pieces[-1]])
+            except tokrx.Undecided:
+                pass
         if name in ("partition", "rpartition"):
             return Unknown(I.run.new_tag(f"{s.render()}.{name}({argtxt})"),
                            {"expr": f"{I.expr_of(s)}.{name}({', '.join(I.expr_of(a) for a in args)})", "not_none": True})
@@ -1485,6 +1504,7 @@ class Builtins:
                     m.pop("match_or_none", None)
                     m["group0"] = Str.lit(mo.group(0))
                     m["concrete_groups"] = [mo.group(0)] + list(mo.groups())
+                    m["pattern_text"] = pat.text()
                     return Unknown(I.run.new_tag(f"{name}(...)"), m)
                 except Exception:
                     pass
